@@ -9,12 +9,14 @@
 
 #include <functions.h>
 
+extern "C" int btcsim_probe_light;      // seam.cpp: report scripts by digest (sessions of thousands of commands)
+
 namespace {
 struct Buf {
     char* p; size_t cap; size_t n;
     void add(const std::string& s) { if (n + s.size() < cap) { memcpy(p + n, s.data(), s.size()); n += s.size(); } }
     // a value is never dropped: one that is too long for a line of the report is replaced by its length and digest
-    void kvraw(const char* k, const std::string& v) { add(k); add("="); add(v); add("\n"); }
+    void kvraw(const char* k, const std::string& v) { if (btcsim_probe_light) { kv(k, v); return; } add(k); add("="); add(v); add("\n"); }
     void kv(const char* k, const std::string& v) {
         if (v.size() > 2048) {
             unsigned long long h = 1469598103934665603ULL;
